@@ -7,7 +7,7 @@ import json
 import drive
 import p_schema as PS
 
-LEAN_TARGETS = ["Verif.Props.C17"]
+LEAN_TARGETS = ["Verif.Props.C17", "Verif.Props.Ties"]
 LEVEL = "proof"
 ASSUMPTIONS = [
     "the reference is a generator over (definition, layout) that walks the RFC 4512 grammars — every WSP/SP count, bare vs parenthesised lists, "
